@@ -20,3 +20,4 @@ pub mod util;
 pub mod fuzzdec;
 pub mod dict;
 pub mod fuzzrun;
+pub mod selftest;
